@@ -976,6 +976,10 @@ func scnFaults(g *Gen, budget int, arg string) {
 			switch g.pick(10) {
 			case 0, 1, 2:
 				ty, kv := g.opDeposit(from, fmt.Sprint(1+g.pick(50)), g.chance(0.5))
+				if g.chance(0.25) {
+					// a spelling that only case-folds to the minting denom: the bank is case sensitive
+					kv.set("burnToken", hs([]string{"UUSDC", "uUsDC", "uusdC"}[g.pick(3)]))
+				}
 				g.tx(ty, kv.set("faults", plan))
 			case 3: // late failure: send side paused
 				g.pauseTx("SendingAndReceivingMessages", true)
